@@ -205,6 +205,25 @@ FIXED_WITNESSES = {
                       "  type, public, extends(a_t) :: b_t\n  end type b_t\ncontains\n"
                       "  subroutine p()\n  end subroutine p\nend module m\n"}, {"display": ["public"]},
         lambda probs, err: any(p["problem"] == "missing-target" and "#boundprocedure-" in p["url"] for p in probs)),
+    # reported by the seeding agents, repaired (regression inputs)
+    "link-to-hidden-entity": (
+        {"src/m.f90": "module m\n  private :: shape_scale\n  type :: shape_t\n    !! See [[scale:shape_scale]] here\n"
+                      "    integer :: n = 0\n  contains\n    procedure, nopass :: scale => shape_scale\n  end type shape_t\n"
+                      "contains\n  subroutine shape_scale(a)\n    integer, intent(in) :: a\n  end subroutine shape_scale\n"
+                      "end module m\n"}, {},
+        lambda probs, err: any(p["problem"] == "missing-target" and "proc/shape_scale.html" in p["url"] for p in probs)),
+    "summary-readmore-none": (
+        {"src/m.f90": "module m\ncontains\n  subroutine outer(a)\n    !! proc_internals: true\n    !! outer doc\n"
+                      "    integer, intent(in) :: a\n    type :: local_t\n      !! summary: short summary\n"
+                      "      !! Long description.\n      integer :: z\n    end type local_t\n  end subroutine outer\n"
+                      "end module m\n"}, {},
+        lambda probs, err: any(p["url"].endswith("../None") or p["url"] == "../None" for p in probs)),
+    "constructor-link-absolute": (
+        {"src/m.f90": "module m\n  type :: shape_t\n    integer :: n = 0\n  end type shape_t\n  interface shape_t\n"
+                      "    module procedure make_shape\n  end interface\ncontains\n  function make_shape(n) result(s)\n"
+                      "    integer, intent(in) :: n\n    type(shape_t) :: s\n    s%n = n\n  end function make_shape\n"
+                      "end module m\n"}, {},
+        lambda probs, err: any(p["problem"] == "absolute" for p in probs)),
 }
 
 
